@@ -435,7 +435,7 @@ func (r *checkRun) run() int {
 			if r.prop.MaxSymLen > 0 {
 				cfg.MaxSymLen = r.prop.MaxSymLen
 			}
-			cfg.SolverTimeoutMs = 10000
+			cfg.SolverTimeoutMs = 30000 // every query of the registered tiers answers within 10 s on a free machine; the margin is for a loaded one
 			if thorough {
 				cfg.SolverTimeoutMs = 60000
 			}
